@@ -143,3 +143,17 @@ M("C15", "parallel-asks-end", COMB, "                    iter(npopulation),\n   
 M("C15", "driver-wrong-size", "geneticengine/algorithms/gp/gp.py", "                    population,\n                    self.population_size,", "                    population,\n                    len(population.individuals),", "C15.R3")
 M("C15", "twin-materialise-comprehension", ELI, "        candidates = list(population)", "        candidates = [ind for ind in population]", "", expect="silent")
 M("C15", "twin-range-loop-identity", COMB, "        for _, p in zip(range(target_size), population):\n            yield p", "        for _, p in zip(range(target_size), population):\n            q = p\n            yield q", "", expect="silent")
+
+# ------------------------------------------------------------------------------------- C16
+HLP = "geneticengine/problems/helpers.py"
+M("C16", "sort-ascending", HLP, "key=lambda x: x.get_fitness(problem).maximizing_aggregate, reverse=True)", "key=lambda x: x.get_fitness(problem).maximizing_aggregate, reverse=False)", "C16.R1")
+M("C16", "sort-key-negated", HLP, "key=lambda x: x.get_fitness(problem).maximizing_aggregate, reverse=True)", "key=lambda x: -x.get_fitness(problem).maximizing_aggregate, reverse=True)", "C16.R1")
+M("C16", "slice-suffix", ELI, "yield from new_population[:target_size]", "yield from new_population[-target_size:]", "C16.R1")
+M("C16", "slice-short", ELI, "yield from new_population[:target_size]", "yield from new_population[: target_size - 1]", "C16.R1")
+M("C16", "not-evaluated", ELI, "        evaluator.evaluate(problem, candidates)\n", "", "C16.R2")
+M("C16", "default-step-exclusive", "geneticengine/algorithms/gp/gp.py", "    return ParallelStep(\n        [\n            ElitismStep(),",
+  "    return ExclusiveParallelStep(\n        [\n            ElitismStep(),", "C16.R4",
+  extra=[("geneticengine/algorithms/gp/gp.py", "from geneticengine.algorithms.gp.operators.combinators import ParallelStep, SequenceStep", "from geneticengine.algorithms.gp.operators.combinators import ExclusiveParallelStep, ParallelStep, SequenceStep")])
+M("C16", "parallel-passes-slice", COMB, "                    iter(npopulation),\n                    end - start,", "                    iter(npopulation[start:]),\n                    end - start,", "C16.R4")
+M("C16", "twin-negated-key-no-reverse", HLP, "key=lambda x: x.get_fitness(problem).maximizing_aggregate, reverse=True)", "key=lambda x: -x.get_fitness(problem).maximizing_aggregate)", "", expect="silent")
+M("C16", "twin-sorted-inline", ELI, "new_population = sort_population(candidates, problem)", "new_population = sorted(candidates, key=lambda x: x.get_fitness(problem).maximizing_aggregate, reverse=True)", "", expect="silent")
